@@ -162,7 +162,9 @@ fn run_thread(cx: ThreadCtx<'_>, root: Node, ops: &[Op]) {
     let mut cur: Elem = NodeOrToken::Node(root.clone());
     let mut pos: Option<usize> = Some(0);
     let mut stack: Vec<(Elem, Option<usize>)> = vec![];
-    for op in ops {
+    for (opi, op) in ops.iter().enumerate() {
+        // values stored in data slots are made unique per (thread, operation)
+        let uniq = |v: u32| (cx.t as u32 + 1) * 1000 + (opi as u32) * 10 + v;
         match op {
             Op::Nav(name) => {
                 let res: Option<Elem> = match (&cur, *name) {
@@ -258,18 +260,19 @@ fn run_thread(cx: ThreadCtx<'_>, root: Node, ops: &[Op]) {
                 };
                 let s = match op {
                     Op::Set(v) => {
+                        let v = &uniq(*v);
                         let a = node.set_data(Payload::new(*v));
                         let r = format!("set {} -> {}", v, a.v);
                         cx.held.lock().unwrap()[cx.t].push(a);
                         r
                     }
-                    Op::TrySet(v) => match node.try_set_data(Payload::new(*v)) {
-                        Ok(a) => {
+                    Op::TrySet(v) => match { let v = uniq(*v); (v, node.try_set_data(Payload::new(v))) } {
+                        (v, Ok(a)) => {
                             let r = format!("tryset {} -> ok {}", v, a.v);
                             cx.held.lock().unwrap()[cx.t].push(a);
                             r
                         }
-                        Err(p) => format!("tryset {} -> err {}", v, p.v),
+                        (v, Err(p)) => format!("tryset {} -> err {}", v, p.v),
                     },
                     Op::Get => match node.get_data() {
                         Some(a) => {
@@ -346,6 +349,17 @@ pub fn execute(tree: &RefTree, prog: &Prog, root_first: bool, choose: &mut dyn F
     });
     // values handed out stay valid after replace/clear; release them now
     let handed: Vec<Vec<(u32, usize)>> = held.lock().unwrap().iter().map(|v| v.iter().map(|a| (a.v, a.id)).collect()).collect();
+    let mut early: Vec<(u32, u32)> = vec![];
+    {
+        let drops = DROPS.lock().unwrap();
+        for hs in &handed {
+            for (v, id) in hs {
+                if drops[*id] != 0 {
+                    early.push((*v, drops[*id]));
+                }
+            }
+        }
+    }
     drop(held);
     drop(root_opt.take());
     cstree::verif::set_hook(None);
@@ -353,6 +367,9 @@ pub fn execute(tree: &RefTree, prog: &Prog, root_first: bool, choose: &mut dyn F
     let mut violations: Vec<(String, String)> = vec![];
     for t in panics.into_inner().unwrap() {
         violations.push(("C05".into(), format!("thread {} panicked", t)));
+    }
+    for (v, d) in early {
+        violations.push(("C18".into(), format!("payload {} was dropped {} time(s) while a handle to it was still held", v, d)));
     }
     for v in st.heap_violations.drain(..) {
         violations.push(("C06".into(), v));
@@ -777,6 +794,43 @@ pub fn run_conc(what: &str, seed: u64, tier: &str, outdir: &str) {
                 // main's clones hand one handle to each thread
                 ops.push(l.clone());
                 imp.push("ok".into());
+            }
+            // the data operations, in completion order, for the model of the data slot
+            let mut n_dev = 0usize;
+            for (t, s) in &e.data_log {
+                let (body, slot) = s.rsplit_once(" @").unwrap_or((s, "?"));
+                let ws: Vec<&str> = body.split(' ').collect();
+                let mut push = |o: String, i: String| {
+                    ops.push(o);
+                    imp.push(i);
+                };
+                match ws.as_slice() {
+                    ["set", v, "->", r] => push(format!("dev {} s{} set {}", t, slot, v), format!("arc {}", r)),
+                    ["tryset", v, "->", "ok", r] => push(format!("dev {} s{} tryset {}", t, slot, v), format!("arc {}", r)),
+                    ["tryset", v, "->", "err", r] => {
+                        push(format!("dev {} s{} tryset {}", t, slot, v), format!("back {}", r));
+                        // the harness drops the value that came back at once
+                        push(format!("dev {} s{} drop {}", t, slot, v), "ok".into());
+                    }
+                    ["get", "->", "some", r] => push(format!("dev {} s{} get", t, slot), format!("some {}", r)),
+                    ["get", "->", "none"] => push(format!("dev {} s{} get", t, slot), "none".into()),
+                    ["clear", "->", "()"] => push(format!("dev {} s{} clear", t, slot), "unit".into()),
+                    _ => {}
+                }
+                n_dev += 1;
+                let key = match ws.as_slice() {
+                    ["set", ..] => "data_set",
+                    ["tryset", _, "->", "ok", _] => "data_tryset_won",
+                    ["tryset", ..] => "data_tryset_refused",
+                    ["get", "->", "some", _] => "data_get_some",
+                    ["get", ..] => "data_get_none",
+                    _ => "data_clear",
+                };
+                *dist.entry(key.into()).or_insert(0) += 1;
+            }
+            if n_dev > 0 {
+                ops.push("dend".into());
+                imp.push(format!("made {} once {} left 0", e.payloads.0, e.payloads.1));
             }
             // insert the `send`s: the k-th `inc` of main gives a handle to thread k
             let main = prog.len();
